@@ -30,6 +30,8 @@ func checkC15(p *Prog, r *Report) {
 	c15TableOrder(p, r)
 	c15Saturation(p, r, "C15.R3")
 	c15History(p, r, "C15.R4")
+	// the texture table cells are turned into numbers by the shared helpers
+	inputHelpers(p, r, "C15.R5")
 }
 
 // ---------------------------------------------------------------- units
